@@ -214,6 +214,10 @@ def _check_safe_eval_cached(
         if isinstance(node, ast.Attribute) and node.attr.startswith('__'):
             raise SecurityError(f"Dunder access prohibited: .{node.attr}")
 
+        if isinstance(node, ast.Attribute) and node.attr in {'format', 'format_map'}:
+            # str.format() fields traverse attributes: '{0.__class__}'.format(x)
+            raise SecurityError(f"Format method prohibited: .{node.attr}")
+
         if isinstance(node, ast.Name):
             if isinstance(node.ctx, ast.Load) and node.id not in context:
                 raise SecurityError(f"Unauthorized name access: {node.id}")
